@@ -333,8 +333,11 @@ __CPROVER_ensures(!__CPROVER_return_value == !xv_tmg.expired_ret && xv_tmg.expir
         XV_TD_UCNT_OK(xv_ar.process_fd_n) && XV_TD_UCNT_OK(xv_ar.process_n) && XV_TD_UCNT_OK(xv_ar.getsock_n) && XV_TD_UCNT_OK(xv_ar.timeout_n) && XV_TD_UCNT_OK(xv_ar.destroys) && \
         XV_TD_UCNT_OK(xv_ar.inits) && XV_TD_UCNT_OK(xv_ar.gai_n) && XV_TD_UCNT_OK(xv_ar.free_n) && XV_TD_UCNT_OK(xv_ar.cb_n) && XV_TD_UCNT_OK(xv_ar.tv2f_n) && XV_TD_UCNT_OK(xv_ar.pfd_j) && \
         XV_TD_CNT_OK(xv_ar.channels) && xv_ar.channels > 0 && XV_TD_CNT_OK(xv_ar.results) && xv_tmg.mgr_fd >= 0 && xv_tmg.last_id < (1L << 62) - 64)
-#define XQ_FRESH(q) (__CPROVER_is_fresh(q, sizeof(struct xcm_dns_query)))
-#define XQ_CHANNEL_FRESH(q) (__CPROVER_is_fresh((q)->channel, sizeof(struct ares_channeldata)))
+/* The query object, its channel and its name are BUILT BY THE HARNESS (malloc, arbitrary content: xv_q_any() in harness/timerdns/
+ * _unit_dns.h), not by __CPROVER_is_fresh: the c-ares model keeps the callback argument (xv_ar.arg = the query) and calls
+ * query_cb through it, and a ghost pointer that is merely ASSUMED equal to an is_fresh object cannot be dereferenced (HOWTO trap). */
+#define XQ_FRESH(q) ((q) != NULL && __CPROVER_rw_ok(q, sizeof(struct xcm_dns_query)))
+#define XQ_CHANNEL_FRESH(q) ((q)->channel != NULL && __CPROVER_rw_ok((q)->channel, sizeof(struct ares_channeldata)))
 /* the invariant of a query between two calls of the interface */
 #define XQ_OK(q) (Q_OK(q) && (q)->channel->xv_live == 1 && (q)->xpoll != NULL && (q)->timer_mgr != NULL && XQ_REGS_OK(q) && XQ_TIMERS_OK(q) && \
                   (xv_ar.pending ==> xv_ar.arg == (void *)(q)) && ((q)->state == query_state_in_progress ==> (q)->overall_timer_id >= 0))
@@ -516,7 +519,6 @@ __CPROVER_ensures(query->state == query_state_successful ==> (XQ_ALL(query, XQF_
 void xcm_dns_query_destroy(struct xcm_dns_query *query, bool owner)
 __CPROVER_requires(query == NULL || XQ_FRESH(query))
 __CPROVER_requires(query == NULL || XQ_CHANNEL_FRESH(query))
-__CPROVER_requires(query == NULL || __CPROVER_is_fresh(query->domain_name, 1))
 __CPROVER_requires(query == NULL || (XQ_OK(query) && XQ_NREGS(query) == xv_g_nregs && xv_g_ptr == (const void *)query->domain_name && xv_g_ptr2 == (const void *)query->channel))
 __CPROVER_requires(XQ_GHOST_RANGES)
 __CPROVER_assigns(xv_errno, xv_xr, xv_tmg, xv_ar)
@@ -528,7 +530,7 @@ __CPROVER_ensures(query != NULL ==> (xv_ar.destroys == __CPROVER_old(xv_ar.destr
                   __CPROVER_was_freed(query) && __CPROVER_was_freed(xv_g_ptr) && !xv_ar.pending))
 /* PO[C08] xcm_dns_query_destroy.owner_releases_every_registration_exactly_once: the query's (c-ares descriptors) and the timer manager's */
 __CPROVER_ensures((query != NULL && owner) ==> (xv_xr.regs == __CPROVER_old(xv_xr.regs) - xv_g_nregs - 1 && xv_xr.dels == __CPROVER_old(xv_xr.dels) + (unsigned)xv_g_nregs + 1 && XV_SAME(xv_xr.adds) && \
-                  !xv_xr.rk_live))
+                  (xv_tmg.mgr_reg_id == xv_rk ==> !xv_xr.rk_live)))
 /* PO[C08] xcm_dns_query_destroy.cleanup_is_process_local: owner == false (xcm_cleanup in a forked child): no epoll change */
 __CPROVER_ensures((query == NULL || !owner) ==> XR_UNTOUCHED)
 /* PO[C08] xcm_dns_query_destroy.null_is_noop */
